@@ -400,3 +400,8 @@ def run(rep, program: Program, tier: str) -> None:
     rep.extra.pop("members_outside_algebra", None)
     # metric.sqrt (the public member the momentum draw reads) must be the analysed _construct_sqrt value (shared with C10-R9)
     rep.isolate(c10.rule_lazy_members, rep, program, prop=PROP, rule="R6", only=("sqrt",))
+    # momenta re-drawn after a metric update must come from the system's own sample_momentum (constrained systems
+    # project onto the cotangent space) (shared with C17-R2)
+    from . import c17
+
+    rep.isolate(c17.rule_r2, rep, program, prop=PROP, rule="R7")
